@@ -199,6 +199,7 @@ type Bounds struct {
 	neMemo       map[*ssa.Function]bool     // noElemWrites
 	premiseFacts map[*ssa.Function][]aff    // facts established from call sites (bounds_premise.go)
 	posts        map[*ssa.Function]postcond // proved postconditions (bounds_post.go)
+	nonNeg       map[string]int             // fieldNonNeg: 1 proved, 2 refuted, 3 hypothesis being checked
 	raw          map[*ssa.Function]*boundsFn
 	symRng       map[string]ival
 	outOfScope   []string
@@ -705,6 +706,13 @@ func (bf *boundsFn) rangeOfAtom1(x interface{}) ival {
 			a := bf.rangeOfAff(bf.affOf(y.X))
 			if a.lo >= tr.lo && a.hi <= tr.hi {
 				return a
+			}
+		}
+	case *ssa.UnOp:
+		// load of a struct field that is never negative (field invariant)
+		if y.Op == token.MUL && tr.lo < 0 {
+			if _, nf, ok := fieldOf(y.X); ok && bf.B.fieldNonNeg(nf) {
+				return meet(tr, ival{0, posInfI})
 			}
 		}
 	case *ssa.Phi:
@@ -1912,4 +1920,81 @@ func (B *Bounds) returnLenHi(v ssa.Value) (int64, bool) {
 		}
 	}
 	return hi, n > 0
+}
+
+// fieldNonNeg: the integer field nf of a library struct is never negative —
+// every store to it anywhere in the library stores a value that is provably
+// ≥ 0 under the hypothesis that loads of the field are (induction over the
+// execution; the zero value is 0), the struct is never overwritten as a whole
+// and the address of the field is only used for loads and stores.
+func (B *Bounds) fieldNonNeg(nf nilField) bool {
+	key := nf.String()
+	if B.nonNeg == nil {
+		B.nonNeg = map[string]int{}
+	}
+	switch B.nonNeg[key] {
+	case 1, 3:
+		return true // proved, or the hypothesis while it is being checked
+	case 2:
+		return false
+	}
+	B.nonNeg[key] = 3
+	ok := true
+	n := 0
+	for _, fn := range B.P.LibFuncs(false) {
+		if !ok {
+			break
+		}
+		for _, b := range fn.Blocks {
+			for _, ins := range b.Instrs {
+				// whole-struct overwrite
+				if st, isStore := ins.(*ssa.Store); isStore {
+					if pt, isPtr := st.Addr.Type().Underlying().(*types.Pointer); isPtr && types.Identical(pt.Elem(), nf.T) {
+						ok = false
+					}
+				}
+				fa, isFA := ins.(*ssa.FieldAddr)
+				if !isFA {
+					continue
+				}
+				if _, f, isF := fieldOf(fa); !isF || f.F != nf.F || !types.Identical(f.T, nf.T) {
+					continue
+				}
+				if fa.Referrers() == nil {
+					continue
+				}
+				for _, r := range *fa.Referrers() {
+					switch u := r.(type) {
+					case *ssa.UnOp:
+						if u.Op != token.MUL {
+							ok = false
+						}
+					case *ssa.Store:
+						if u.Addr != ssa.Value(fa) {
+							ok = false // the address itself is stored somewhere
+							break
+						}
+						n++
+						bf := B.of(fn)
+						if !bf.proveAt(bf.affOf(u.Val), u.Block(), u) {
+							ok = false
+						}
+					case *ssa.DebugRef:
+					default:
+						ok = false
+					}
+				}
+			}
+		}
+	}
+	if ok {
+		B.nonNeg[key] = 1
+	} else {
+		B.nonNeg[key] = 2
+		// ranges computed under the refuted hypothesis must not survive
+		for _, bf := range B.fns {
+			bf.rngMemo = map[interface{}]*ival{}
+		}
+	}
+	return ok
 }
